@@ -92,6 +92,22 @@ fn mem_direct(lo: u64, hi: u64) -> impl Fn(u64, usize) -> Option<Vec<u8>> {
     }
 }
 
+/// C17 at placement level: every byte of `[lo, lo+now.len())` that differs between `before` and
+/// `now` must lie in a flush request of `log` that saw exactly that final value.
+fn flush_gaps(log: &[venv::Call], lo: u64, before: &[u8], now: &[u8]) -> Option<String> {
+    for (i, (&b, &n)) in before.iter().zip(now.iter()).enumerate() {
+        if b == n {
+            continue;
+        }
+        let addr = lo + i as u64;
+        let ok = log.iter().any(|c| c.kind == venv::Kind::Flush && c.a <= addr && addr < c.b && c.snap.as_ref().and_then(|s| s.get((addr - c.a) as usize)).copied() == Some(n));
+        if !ok {
+            return Some(format!("code byte {addr:#x} was written ({b:#04x} -> {n:#04x}) but no instruction-cache flush request covers it holding that value"));
+        }
+    }
+    None
+}
+
 fn panic_text(p: &(dyn std::any::Any + Send)) -> String {
     p.downcast_ref::<String>().cloned().or_else(|| p.downcast_ref::<&str>().map(|s| s.to_string())).unwrap_or_default()
 }
@@ -101,6 +117,13 @@ fn panic_text(p: &(dyn std::any::Any + Send)) -> String {
 fn one_arm64(acc: &mut Acc, a: u64, tramp: Option<u64>, fake: u64, boolv: Option<bool>, backend: Backend, collect_words: bool) {
     acc.steps += 1;
     model64(tramp.map(|t| vec![venv::Answer::At(t)]).unwrap_or_default());
+    let flush_check = collect_words;
+    if flush_check {
+        venv::with(|e| {
+            e.log_enabled = true;
+            e.log.clear();
+        });
+    }
     let pre = unsafe { arena::read(a - 16, 48) };
     let r = catch_unwind(AssertUnwindSafe(|| unsafe {
         match boolv {
@@ -127,6 +150,20 @@ fn one_arm64(acc: &mut Acc, a: u64, tramp: Option<u64>, fake: u64, boolv: Option
         }
         Ok(g) => {
             acc.tag("installed");
+            if flush_check {
+                acc.tag("flush-oracle");
+                let log = venv::take_log();
+                let now = unsafe { arena::read(a - 16, 48) };
+                if let Some(m) = flush_gaps(&log, a - 16, &pre, &now) {
+                    acc.viol("C17", "aarch64:written-not-flushed", format!("installation at {a:#x}: {m}"));
+                }
+                if let Some(&(t, _)) = owned.first() {
+                    let tn = unsafe { arena::read(t, 32) };
+                    if let Some(m) = flush_gaps(&log, t, &[0u8; 32], &tn) {
+                        acc.viol("C17", "aarch64:trampoline-written-not-flushed", format!("trampoline of the installation at {a:#x}: {m}"));
+                    }
+                }
+            }
             {
                 let now = unsafe { arena::read(a - 16, 48) };
                 if now[..16] != pre[..16] || now[28..] != pre[28..] {
@@ -174,7 +211,16 @@ fn one_arm64(acc: &mut Acc, a: u64, tramp: Option<u64>, fake: u64, boolv: Option
             if run.read_initial != 0 && matches!(run.stop, Stop::Left { .. } | Stop::Returned) {
                 acc.viol("C15", "aarch64:reads-caller-register", format!("the sequence reads a register holding the caller's value: mask {:#x} (path: {})", run.read_initial, run.trace.join("; ")));
             }
+            let installed_img = unsafe { arena::read(a - 16, 48) };
             drop(g);
+            if flush_check {
+                let log = venv::take_log();
+                let now = unsafe { arena::read(a - 16, 48) };
+                if let Some(m) = flush_gaps(&log, a - 16, &installed_img, &now) {
+                    acc.viol("C17", "aarch64:restored-not-flushed", format!("removal of the installation at {a:#x}: {m}"));
+                }
+                venv::with(|e| e.log_enabled = false);
+            }
             if unsafe { arena::read(a - 16, 48) } != pre {
                 acc.viol("C02", "aarch64:not-restored", format!("bytes around entry {a:#x} differ from the pre-image after the guard was dropped"));
                 unsafe { arena::write(a - 16, &pre) };
@@ -650,6 +696,13 @@ pub fn c16_exec(c: &Value) -> Value {
             acc.steps += 1;
             let src = entry | thumb as u64;
             let pre = unsafe { arena::read(entry - 16, 48) };
+            let flush_check = (f >> 3) % 61 == 0;
+            if flush_check {
+                venv::with(|e| {
+                    e.log_enabled = true;
+                    e.log.clear();
+                });
+            }
             let r = catch_unwind(AssertUnwindSafe(|| unsafe { vaccess::replace(Backend::Arm32, src as usize, f as usize) }));
             match r {
                 Err(p) => {
@@ -661,6 +714,13 @@ pub fn c16_exec(c: &Value) -> Value {
                 Ok(g) => {
                     acc.tag(&format!("installed:{ecase}"));
                     let now = unsafe { arena::read(entry - 16, 48) };
+                    if flush_check {
+                        acc.tag("flush-oracle");
+                        let log = venv::take_log();
+                        if let Some(m) = flush_gaps(&log, entry - 16, &pre, &now) {
+                            acc.viol("C17", &format!("arm32:{ecase}:written-not-flushed"), format!("installation at {entry:#x}: {m}"));
+                        }
+                    }
                     // bytes changed must lie in [entry, entry+12)
                     for i in 0..48usize {
                         if now[i] != pre[i] && !(16..28).contains(&i) {
@@ -734,6 +794,14 @@ pub fn c16_exec(c: &Value) -> Value {
                         }
                     }
                     drop(g);
+                    if flush_check {
+                        let log = venv::take_log();
+                        let after = unsafe { arena::read(entry - 16, 48) };
+                        if let Some(m) = flush_gaps(&log, entry - 16, &now, &after) {
+                            acc.viol("C17", &format!("arm32:{ecase}:restored-not-flushed"), format!("removal of the installation at {entry:#x}: {m}"));
+                        }
+                        venv::with(|e| e.log_enabled = false);
+                    }
                     if unsafe { arena::read(entry - 16, 48) } != pre {
                         acc.viol("C16", &format!("arm32:{ecase}:not-restored"), format!("entry {entry:#x}: bytes differ from the pre-image after the guard was dropped (saved bytes do not cover the overwritten range)"));
                         arena::protect(base, 0x3000, arena::RW);
